@@ -98,6 +98,12 @@ func (app *App) checkRecovery() {
 		return
 	}
 
+	if sstatus == nil {
+		// we are the recorded master ourselves (with commits waiting for an ack): nothing to compare with
+		app.logger.Info().Msg("recovery: local node is the current master, nothing to recover")
+		return
+	}
+
 	app.logger.Info().Msgf("recovery: master %s has GTIDs %s", master, mgtids)
 	app.logger.Info().Msgf("recovery: local node %s has GTIDs %s", localNode.Host(), sstatus.GetExecutedGtidSet())
 
